@@ -89,10 +89,10 @@ def _c01(reg, tier):
 
 # kani-driver buffers CBMC's messages; harnesses that unwind thousands of loop
 # iterations emit gigabytes of "Unwinding loop" statistics lines at verbosity 9
-# (kani-driver itself was OOM-killed at 32 GB). Heavy-output groups run CBMC at
-# verbosity 7: results are unaffected, per-harness symex/solver statistics are
+# (kani-driver itself was OOM-killed at 32 GB, and still reached 42 GB at
+# verbosity 7). Heavy-output groups run CBMC at verbosity 4 (results only): results are unaffected, per-harness symex/solver statistics are
 # then not available (wall time still is).
-QUIET = ("--verbosity", "7")
+QUIET = ("--verbosity", "4")
 
 UF_STUB = "u64::wrapping_mul / u32::wrapping_mul replaced by a recording stub = uninterpreted function with Ackermann consistency (large-constant multiplications; applies to implementation and model alike; stub-free twins confirm failures)"
 GEN_STUB = "<Core as BlockRngCore>::generate replaced by a recording stub returning arbitrary words (block contents are C02/C03's subject)"
@@ -322,7 +322,7 @@ def _c12(tier):
 PROPS["C12"] = dict(
     level="proof",
     level_text="Decomposed bounded-model-checking proof over all timer readings: the LFSR fold equals the documented bit-serial LFSR for every (pool, time); the stir equals its documented branching form; the memory-access source only moves its index; one measurement (order of the three readings, 32-bit delta sign-extended into the fold, stuck test, rotate-by-7 iff accepted, collector update) from every collector state; one collection (priming measurement, retries until `rounds` accepted, single stir, result = pool, 1 + 3 x measurements readings).",
-    level_note="Bounds: rounds <= 3 and at most 2 (quick) / 4 (thorough) stuck measurements per collection; the loop bodies are uniform in the round number, rounds up to 255 are outside the solver claim. next_u32/fill_bytes on top of a collection are C16/C05. JitterRng::new() (OS clock, std feature) is not encoded. Trusted: Kani/CBMC, the reference model of the documented procedure, the stub contracts (each proved by its own stub-free harness).",
+    level_note="Bounds: rounds <= 3 and at most 2 (quick) / 4 (thorough) stuck measurements per collection; the loop bodies are uniform in the round number; for round counts up to 255 only the first 5 measurements of a collection are explored (jit::collect::any_rounds_prefix), complete collections with rounds > 3 are outside the solver claim. next_u32/fill_bytes on top of a collection are C16/C05. JitterRng::new() (OS clock, std feature) is not encoded. Trusted: Kani/CBMC, the reference model of the documented procedure, the stub contracts (each proved by its own stub-free harness).",
     tiers=both(_c12),
     explanation="Harnesses jit::lfsr::*, jit::stir::model, jit::mem::index (stub-free, callees vs model for all inputs) and jit::measure::one, jit::collect::s2/s4, jit::collect::timer_stats (callers with the noise sources stubbed, all readings symbolic, on-line model of the stuck test inside the stub).",
     bounds="rounds <= 3; stuck measurements per collection <= 2 (quick) / 4 (thorough); LFSR 64 rounds and up to 15 throw-away folds fully unrolled",
@@ -333,17 +333,17 @@ PROPS["C12"] = dict(
 def _c13(tier):
     hs = ["jit::tt::prefix_tiny", "jit::tt::prefix_stuck"]
     if tier == "thorough":
-        hs += ["jit::tt::prefix_coarse", "jit::tt::all_readings"]
+        hs += ["jit::tt::prefix_coarse"]
     return [Group("c13", hs, jobs=4, timeout=3400, mem_gb=30, native_replay=False, extra_kani=["--no-assertion-reach-checks"], stubs=JIT_STUBS)]
 
 
 PROPS["C13"] = dict(
     level="proof",
-    level_text="Bounded-model-checking proof over the real test_timer (noise sources stubbed to their reading-consumption contract): Ok(r) only if no documented failure condition holds and 1 <= r <= 128 and r * bitlen(mean) >= 128; every Err names a condition that holds on the readings consumed. The conditions are evaluated by an on-line model fed by the timer itself. Quick tier: the first 376 probes follow a fixed pattern (two patterns: tiny variations, stuck) that leaves the accumulators just below the decision thresholds, the priming reading and the last 24 probes (96 readings) are free 64-bit variables, so every threshold (mean 0/1/2.., 270 stuck, 3 backwards, zero readings/deltas, the lookup table and the log2 branch) is crossed symbolically. Thorough tier adds a coarse-timer pattern and the harness in which all 1601 readings are free.",
+    level_text="Bounded-model-checking proof over the real test_timer (noise sources stubbed to their reading-consumption contract): Ok(r) only if no documented failure condition holds and 1 <= r <= 128 and r * bitlen(mean) >= 128; every Err names a condition that holds on the readings consumed. The conditions are evaluated by an on-line model fed by the timer itself. Quick tier: the first 376 probes follow a fixed pattern (two patterns: tiny variations, stuck) that leaves the accumulators just below the decision thresholds, the priming reading and the last 24 probes (96 readings) are free 64-bit variables, so every threshold (mean 0/1/2.., 270 stuck, 3 backwards, zero readings/deltas, the lookup table and the log2 branch) is crossed symbolically. Thorough tier adds a coarse-timer pattern. The harness in which ALL 1601 readings are free (jit::tt::all_readings) exists but did not finish in 57 min on this machine and is not registered.",
     level_note="Bound of the quick tier: concrete prefix of 376 probes (stated above). Trusted: Kani/CBMC, the on-line model of the documented conditions in jit::tt.",
     tiers=both(_c13),
     explanation="jit::tt::prefix_tiny / prefix_stuck (/ prefix_coarse / all_readings): real test_timer; verdict checked against the model's accumulators (zero reading, zero delta, backwards count, mod-100 count, stuck count, summed absolute delta variation).",
-    bounds="quick: 376 concrete + 24 symbolic probes; thorough: all 400 probes symbolic; loop fully unrolled (unwind 402)",
+    bounds="376 patterned + 24 symbolic probes per harness (2 patterns quick, 3 thorough); loop fully unrolled (unwind 402)",
 )
 
 
@@ -435,7 +435,7 @@ def _c09_full(tier):
     gs.append(Group("c09_isaac", isaac, jobs=8, timeout=1800, mem_gb=16, native_replay=False, stubs=[ISAAC_INIT_STUB]))
     if tier == "thorough":
         gs.append(Group("c09_isaac_init", ["c03::init32::two_pass", "c03::init32::one_pass", "c03::init64::two_pass", "c03::init64::one_pass"],
-                        cbmc_args=QUIET, jobs=4, timeout=3000, mem_gb=24, native_replay=False, stubs=[ISAAC_CUT_STUB]))
+                        cbmc_args=QUIET, jobs=4, timeout=3000, mem_gb=24, native_replay=False, extra_kani=["--no-assertion-reach-checks"], stubs=[ISAAC_CUT_STUB]))
     return gs
 
 
@@ -465,15 +465,16 @@ def _c10(tier):
                  "c03::cl32::core_eq_fields", "c03::cl32::clone", "c03::cl64::core_eq_fields", "c03::cl64::clone"]
     return [Group("c10", hs, jobs=16, timeout=900, mem_gb=12, native_replay=False, stubs=[UF_STUB]),
             Group("c10_hc", heavy, cbmc_args=QUIET, jobs=5, timeout=2400, mem_gb=16, native_replay=False, extra_kani=["--no-assertion-reach-checks"], stubs=[GEN_STUB])] + \
-        ([Group("c10_hcbuf", ["hc::buffer_is_function_of_core"], cbmc_args=QUIET, jobs=1, timeout=3000, mem_gb=40, native_replay=False, extra_kani=["--no-assertion-reach-checks"])] if tier == "thorough" else [])
+        ([Group("c10_hcbuf", ["hc::buf::b%d" % b for b in (range(64) if os.environ.get("VERIF_HC_ALL_BLOCKS") else (0, 1, 30, 31, 32, 33, 62, 63))],
+                jobs=4, timeout=2400, mem_gb=12, native_replay=False, extra_kani=["--no-assertion-reach-checks"])] if tier == "thorough" else [])
 
 
 PROPS["C10"] = dict(
     level="proof",
     level_text="Bounded-model-checking proofs from every state: clone() yields a generator with identical fields that compares equal (where == exists) and returns the same values under next_u32, next_u64, fill_bytes (and jump for the 128-bit types); for two ARBITRARY generators == holds exactly when all fields are equal (the direction a dropped field breaks); for Hc128Rng == is (core, index), generators at different read positions of one block are unequal, and the buffer that == ignores is a function of the post-refill core (thorough). With determinism of every operation as a function of the fields (C19), field equality is inductive, which gives 'identical futures' for all continuations.",
-    level_note="IsaacRng/Isaac64Rng offer no ==; their cores' == and the wrappers' clone are covered. jump on a clone is checked for two representative 128-bit types (the macro body is shared). Trusted: Kani/CBMC, the induction over operations.",
+    level_note="Bound for Hc128Core ==: pairs of cores that are zero except one arbitrary word at position K in {0, 512, 1023} (quick) / {0, 1, 511, 512, 1023} (thorough) and arbitrary counters (two fully arbitrary 4 KiB tables make the 4096-byte memcmp miter too slow); Hc128Rng == / clone: near-zero cores at every read position (quick), fully arbitrary tables (thorough). The 'buffer is a function of the post-refill core' lemma (hc::buffer_is_function_of_core) is thorough-only and needs ~40 GB. IsaacRng/Isaac64Rng offer no ==; their cores' == and the wrappers' clone are in the thorough tier (220-380 s each). jump on a clone is checked for two representative 128-bit types (the macro body is shared). Trusted: Kani/CBMC, the induction over operations.",
     tiers=both(_c10),
-    explanation="c10::<T>::{clone_op,eq_fields} for 17 direct types, c10::jump_*::clone_jump, hc::{core_eq_fields,core_clone,rng_eq_index,rng_clone,buffer_is_function_of_core}, c03::cl32/cl64::{core_eq_fields,clone}.",
+    explanation="c10::<T>::{clone_op,eq_fields} for 17 direct types, c10::jump_*::clone_jump, hc::{core_eq_fields,core_clone,rng_eq_index,rng_clone}, hc::buf::b<blk> (buffer-is-a-function-of-core lemma at block positions 0,1,30,31,32,33,62,63; all 64 with VERIF_HC_ALL_BLOCKS=1), c03::cl32/cl64::{core_eq_fields,clone}.",
     bounds="one operation after clone per query; buffered generators: every read position (symbolic)",
 )
 
@@ -565,8 +566,8 @@ def _c03(tier):
                 jobs=8, timeout=3000, mem_gb=20, native_replay=False, extra_kani=["--no-assertion-reach-checks"],
                 stubs=[ISAAC_INIT_STUB, ISAAC_CUT_STUB, GEN_STUB])]
     if tier == "thorough":
-        bands = ["c03::gen32::generate_%d" % i for i in range(4)] + ["c03::gen64::generate_%d" % i for i in range(4)]
-        gs.append(Group("c03_gen", bands, cbmc_args=QUIET, jobs=4, timeout=3400, mem_gb=14, native_replay=False, extra_kani=["--no-assertion-reach-checks"], stubs=[ISAAC_CUT_STUB]))
+        bands = ["c03::gen32::generate_%d" % i for i in range(4)] + ["c03::gen64::generate_h%d" % i for i in range(8)]
+        gs.append(Group("c03_gen", bands, cbmc_args=QUIET, jobs=4, timeout=5400, mem_gb=14, native_replay=False, extra_kani=["--no-assertion-reach-checks"], stubs=[ISAAC_CUT_STUB]))
         gs.append(Group("c03_init2", ["c03::init32::two_pass", "c03::init64::two_pass", "c05_block::isaac64::next"], cbmc_args=QUIET, jobs=3, timeout=3400, mem_gb=20,
                         native_replay=False, extra_kani=["--no-assertion-reach-checks"], stubs=[ISAAC_CUT_STUB]))
     return gs
@@ -575,7 +576,7 @@ def _c03(tier):
 PROPS["C03"] = dict(
     level="proof",
     level_text="Decomposed bounded-model-checking proof over all memories and seeds: (1) one refill (generate) from EVERY (mm[256], aa, bb, cc) is Jenkins' isaac()/isaac64() - decided with a 'UF-cut': wrapping_add is replaced by a stub that returns a fresh arbitrary value per call and checks on the fly, for every value earlier calls may have returned, that the operands are exactly those of Jenkins' step (incl. the two data-dependent reads per step), final memory/aa/bb/cc/results (in reversed hand-out order) compared with the stub's shadow state; (2) init vs randinit(): the same cut on the 24 additions/subtractions per 8-word block, starting from the golden ratio mixed four times; (3) from_seed / seed_from_u64 pass the documented key layout and pass count to init; (4) the 256-word block is handed out in index order by BlockRng (C05). Composition by induction (DESIGN.md).",
-    level_note="A lock-step miter of generate against a second copy never finished in any formulation (six measured, DESIGN section 10); the UF-cut is sound because the real addition is one admissible choice of the stub's return values. QUICK tier: key layout of from_seed/seed_from_u64, one-pass init vs randinit, hand-out order of the block, and the first 6 steps of the refill (generate_q: the step code is shared by all steps); THOROUGH tier adds the refill (generate) in 4 bands of 64 steps per generator (22-26 min each) and the two-pass init over an arbitrary 256-word key. Trusted: Kani/CBMC, the reference transcription in the stub (same shifts/indices as ref_isaac.rs, which is self-tested on Jenkins' vectors), the induction over calls.",
+    level_note="A lock-step miter of generate against a second copy never finished in any formulation (six measured, DESIGN section 10); the UF-cut is sound because the real addition is one admissible choice of the stub's return values. QUICK tier: key layout of from_seed/seed_from_u64, one-pass init vs randinit, hand-out order of the block, and the first 6 steps of the refill (generate_q: the step code is shared by all steps); THOROUGH tier adds the refill (generate) in bands (ISAAC: 4 x 64 steps, 20-25 min each; ISAAC-64: 8 x 32 steps) and the two-pass init over an arbitrary 256-word key. Trusted: Kani/CBMC, the reference transcription in the stub (same shifts/indices as ref_isaac.rs, which is self-tested on Jenkins' vectors), the induction over calls.",
     tiers=both(_c03),
     explanation="c03::gen32/gen64::generate, c03::init32/init64::{one_pass,two_pass}, c03::seed32/seed64::{from_seed,seed_from_u64}, c05_block::isaac/isaac64::next.",
     bounds="none on memory/seed contents; one block (256 steps, 1026 additions) per query; init: 768 resp. 1536 additions per query",
@@ -601,13 +602,12 @@ def _c14(tier):
     if tier == "thorough":
         blk += ["c02::sixteen_seq", "c02::step_p", "c02::step_q", "c05_block::isaac64::next", "c03::seed64::from_rng",
                 "c03::init32::two_pass", "c03::init64::two_pass",
-                "c03::gen32::generate_0", "c03::gen32::generate_1", "c03::gen32::generate_2", "c03::gen32::generate_3",
-                "c03::gen64::generate_0", "c03::gen64::generate_1", "c03::gen64::generate_2", "c03::gen64::generate_3"]
+                "c03::gen32::generate_0", "c03::gen32::generate_1", "c03::gen32::generate_2", "c03::gen32::generate_3"]
     jit = ["jit::measure::one", "jit::collect::s2", "jit::collect::timer_stats", "jit::mem::index", "jit::lfsr::loop_cnt", "jit::lfsr::fold_fixed",
            "jit::misc::set_rounds", "jit::half::ops2", "jit::stir::model", "jit::tt::prefix_tiny",
            "jit::collect::any_rounds_prefix", "jit::lfsr::fold_var_small"]
     if tier == "thorough":
-        jit += ["jit::lfsr::fold_var", "jit::collect::s4", "jit::half::ops3", "jit::tt::prefix_stuck", "jit::tt::prefix_coarse", "jit::tt::all_readings"]
+        jit += ["jit::lfsr::fold_var", "jit::collect::s4", "jit::half::ops3", "jit::tt::prefix_stuck", "jit::tt::prefix_coarse"]
     return [Group("c14_xo", xo, jobs=12, timeout=1800, mem_gb=12, stubs=[UF_STUB]),
             Group("c14_blk", blk, jobs=5, timeout=3000, mem_gb=20, native_replay=False, extra_kani=["--no-assertion-reach-checks"], stubs=[GEN_STUB, ISAAC_CUT_STUB]),
             Group("c14_jit", jit, jobs=6, timeout=3400, mem_gb=30, native_replay=False, extra_kani=["--no-assertion-reach-checks"], stubs=JIT_STUBS)]
